@@ -9,12 +9,19 @@ def units(tier):
     from . import C18
     api = [tuple(list(u[:1]) + [SIDECARS] + list(u[2:5]) + [("C20",)] + list(u[6:])) for u in C18.units(tier)
            if u[3] in ("readonly_call", "et_device_info", "dt_device_info")]
-    return script_units(SIDECARS, "table_rows", "rows", ("C11", "C12", "C20"), tier, sorted(cs.sensor_tables())) + api
+    # what a callback of one object does must not depend on process-wide state other objects write (the callbacks run
+    # with the Modbus/TCP transaction counter of the process havocked; obligation tagged C20)
+    from . import C04
+    callbacks = [u for u in C04.protocol_units(tier) if "received" in u[4]]
+    return (script_units(SIDECARS, "table_rows", "rows", ("C11", "C12", "C20"), tier, sorted(cs.sensor_tables())) + api
+            + callbacks)
 
 
 def replay(vc, unit):
     if vc['name'].startswith('rows:'):
         return replay_rows(vc, unit)
+    if "Protocol" in vc["name"].split("/")[0]:
+        return replay_protocol(vc, unit)
     from pyvc import units
     from pyvc.native import dec
     w = vc.get("witness") or {}
